@@ -124,3 +124,21 @@ def file_config_in_classes(path, opts_by_name, allowed_classes):
         if o.cls not in allowed_classes and v.strip('"').lower() != str(o.default).lower():
             return False
     return True
+
+
+# combined aggressive configurations (kept apart from CURATED_WS so that the fixed universes built on it do not move)
+COMBOS = ['nl_add+pos_trail', 'nl_add+pos_lead', 'nl_remove+pos_trail', 'nl_remove+pos_lead', 'nl_force+pos_trail_force', 'nl_add+pos_lead_break',
+          'nl_add+pos_trail_break', 'nl_force+pos_lead_force', 'nl_remove+pos_join', 'sp_remove+nl_remove', 'sp_force+nl_add+pos_trail']
+
+
+def combo(opts, name):
+    """Union of families: '<prefix>_<iarf value>' sets every IARF option of that prefix, 'pos_<value>' every token-position option."""
+    out = {}
+    for part in name.split('+'):
+        pref, val = part.split('_', 1)
+        for o in ws_options(opts):
+            if pref == 'pos' and o.type == 'tokenpos' and val in (o.values or []):
+                out[o.name] = val
+            elif pref != 'pos' and o.type == 'iarf' and o.name.startswith(pref + '_'):
+                out[o.name] = val
+    return out
